@@ -271,3 +271,270 @@ Proof.
   unfold cands. rewrite in_app_iff. unfold open_rw at 2; cbn [v_blocks].
   split; [tauto|]. intros [Hh|Hb]; auto.
 Qed.
+
+(* ------------------------------------------------------------------ *)
+(** * counterexamples *)
+(* (1) the unrestricted statement is false of the code as it is: the read-only open skips the
+   WAL, the WBL and the head chunks altogether when an in-order block's MaxTime lies above the
+   querier's maxt; an out-of-order sample that so far only lives in the WBL is then missing.
+   History: 100, 200, 1700, 1800; Compact (block [100,1000)); out-of-order 500; Close;
+   Querier(0, 900). *)
+Definition w1_blocks : list blockd := [mkB 100 1000 false [(0, [100; 200])]].
+Definition w1_init : Z -> hdata := fun _ => mkH 1700 1800 [(0, [1700; 1800])] [(0, [500])] 500 500.
+
+Lemma w1_oracle_ok : oracle_ok w1_init.
+Proof.
+  intros mv i t. unfold w1_init; cbn [h_io h_min get flat_map fst snd].
+  destruct (0 =? i); simpl; intuition lia.
+Qed.
+
+Lemma same_results_refuted :
+  exists init bs mint maxt sel, oracle_ok init /\
+    query (open_ro init bs maxt) mint maxt sel <> query (open_rw init bs) mint maxt sel.
+Proof.
+  exists w1_init, w1_blocks, 0, 900, [0]. split; [apply w1_oracle_ok|].
+  vm_compute. discriminate.
+Qed.
+
+(* (2) the OLD cut-off rule (MaxTime of the last block of the sorted list): 100, 200;
+   out-of-order 150; CompactOOOHead (block [0,1000) from out-of-order data); Close.  Head.Init
+   with cut-off 1000 skips both WAL samples. *)
+Definition w2_blocks : list blockd := [mkB 0 1000 true [(0, [150])]].
+Definition w2_init : Z -> hdata :=
+  fun mv => if mv <=? 100 then mkH 100 200 [(0, [100; 200])] [] maxInt64 minInt64 else hempty.
+
+Lemma w2_oracle_ok : oracle_ok w2_init.
+Proof.
+  intros mv i t. unfold w2_init. destruct (mv <=? 100); cbn [h_io h_min hempty get flat_map fst snd].
+  - destruct (0 =? i); simpl; intuition lia.
+  - simpl. tauto.
+Qed.
+
+Lemma same_results_old_refuted :
+  exists init bs mint maxt sel, oracle_ok init /\ cutoff bs <= maxt /\
+    query (open_ro_old init bs maxt) mint maxt sel <> query (open_rw init bs) mint maxt sel.
+Proof.
+  exists w2_init, w2_blocks, minInt64, maxInt64, [0]. split; [apply w2_oracle_ok|].
+  split; [vm_compute; discriminate|]. vm_compute. discriminate.
+Qed.
+
+(* ------------------------------------------------------------------ *)
+(** * FlushWAL *)
+Definition flush_content (o : option (Z * Z * answer)) : answer :=
+  match o with None => [] | Some (_, _, c) => c end.
+
+Lemma filter_all {A} (f : A -> bool) l : (forall x, In x l -> f x = true) -> filter f l = l.
+Proof.
+  induction l as [|a l IH]; simpl; intros H; auto.
+  rewrite (H a) by auto. f_equal. apply IH. auto.
+Qed.
+
+(* FlushWAL writes exactly the head data when (a) the last block of the sorted list happens to
+   give the same cut-off as the rule of the opens, (b) the head holds no out-of-order data and
+   (c) no in-order sample below the cut-off (no head chunk straddling it). *)
+Theorem flush_exact_partial (init : Z -> hdata) (bs : list blockd) (sel : list sid) :
+  cutoff_old bs = cutoff bs ->
+  (forall i, get (h_ooo (init (cutoff bs))) i = []) ->
+  (forall i t, In t (get (h_io (init (cutoff bs))) i) ->
+       cutoff bs <= t /\ h_min (init (cutoff bs)) <= t <= h_max (init (cutoff bs))) ->
+  flush_content (flush_wal init bs sel) = head_data (init (cutoff bs)) sel.
+Proof.
+  intros Hc Hooo Hio. unfold flush_wal. rewrite Hc. set (H := init (cutoff bs)) in *.
+  set (mint := if h_min H <? cutoff bs then cutoff bs else h_min H).
+  assert (E : flat_map (fun i => match sort_uniq (filter (in_rng mint (h_max H)) (get (h_io H) i)) with
+                                 | [] => [] | l => [(i, l)] end) sel = head_data H sel).
+  { unfold head_data. induction sel as [|i sel IH]; simpl; auto. rewrite IH. f_equal.
+    rewrite Hooo, app_nil_r. rewrite filter_all; auto.
+    intros t Ht. apply in_rng_iff. destruct (Hio i t Ht) as [A [B C]].
+    unfold mint. destruct (h_min H <? cutoff bs); lia. }
+  rewrite E. destruct (head_data H sel); reflexivity.
+Qed.
+
+(* the two ways it fails on the code as it is *)
+Lemma flush_refuted_old_cutoff :
+  exists init bs sel, oracle_ok init /\ (forall i, get (h_ooo (init (cutoff bs))) i = []) /\
+    flush_content (flush_wal init bs sel) <> head_data (init (cutoff bs)) sel.
+Proof.
+  exists w2_init, w2_blocks, [0]. split; [apply w2_oracle_ok|]. split.
+  - intros i. vm_compute. reflexivity.
+  - vm_compute. discriminate.
+Qed.
+
+Definition w3_init : Z -> hdata := fun _ => mkH 100 300 [(0, [100; 200; 300])] [(0, [150])] 150 150.
+Lemma flush_refuted_ooo :
+  exists init bs sel, cutoff_old bs = cutoff bs /\
+    flush_content (flush_wal init bs sel) <> head_data (init (cutoff bs)) sel.
+Proof.
+  exists w3_init, [], [0]. split; [reflexivity|]. vm_compute. discriminate.
+Qed.
+
+(* ------------------------------------------------------------------ *)
+(** * the file system trace *)
+Lemma path_eqb_eq a b : path_eqb a b = true -> a = b.
+Proof.
+  unfold path_eqb. revert b. induction a as [|x a IH]; intros [|y b] H; simpl in *; try discriminate; auto.
+  apply andb_true_iff in H. destruct H as [H1 H2]. apply andb_true_iff in H2. destruct H2 as [H2 H3].
+  apply Z.eqb_eq in H2. simpl in H2. subst. f_equal. apply IH. rewrite H1. exact H3.
+Qed.
+
+Lemma path_eqb_refl a : path_eqb a a = true.
+Proof.
+  unfold path_eqb. rewrite Nat.eqb_refl. simpl. induction a as [|x a IH]; simpl; auto.
+  rewrite Z.eqb_refl. auto.
+Qed.
+
+Lemma under_app sb x : under sb (sb ++ x) = true.
+Proof. induction sb as [|a sb IH]; simpl; auto. rewrite Z.eqb_refl. auto. Qed.
+
+Lemma lookup_cons_other p n t q : path_eqb p q = false -> lookup ((p, n) :: t) q = lookup t q.
+Proof. intros H. unfold lookup. simpl. rewrite H. reflexivity. Qed.
+
+Lemma lookup_filter_keep (g : path -> bool) t q :
+  g q = false -> lookup (filter (fun e => negb (g (fst e))) t) q = lookup t q.
+Proof.
+  intros Hq. unfold lookup. induction t as [|e t IH]; simpl; auto.
+  destruct (g (fst e)) eqn:Eg; simpl.
+  - destruct (path_eqb (fst e) q) eqn:Ep.
+    + apply path_eqb_eq in Ep. congruence.
+    + exact IH.
+  - destruct (path_eqb (fst e) q); auto.
+Qed.
+
+Lemma lookup_filter_drop (g : path -> bool) t q :
+  g q = true -> lookup (filter (fun e => negb (g (fst e))) t) q = None.
+Proof.
+  intros Hq. unfold lookup. induction t as [|e t IH]; simpl; auto.
+  destruct (g (fst e)) eqn:Eg; simpl; auto.
+  destruct (path_eqb (fst e) q) eqn:Ep; auto.
+  apply path_eqb_eq in Ep. congruence.
+Qed.
+
+(* an operation only touches paths below [sb] (a Link may READ anywhere) *)
+Definition confined (sb : path) (o : fsop) : Prop :=
+  match o with
+  | OMkdir p | OMkdirAll p | OCreate p _ _ | ORemove p | ORemoveAll p => under sb p = true
+  | OLink _ d => under sb d = true
+  end.
+
+(* everything outside [sb] and every pre-existing content is as in f0 *)
+Definition inv (f0 : fs) (sb : path) (f : fs) : Prop :=
+  (forall p, under sb p = false -> lookup (f_tree f) p = lookup (f_tree f0) p)
+  /\ (forall ino h, content (f_data f0) ino = Some h -> content (f_data f) ino = Some h).
+
+Lemma under_trans sb p q : under sb p = true -> under p q = true -> under sb q = true.
+Proof.
+  revert p q. induction sb as [|a sb IH]; intros [|b p] [|c q]; simpl; auto; try discriminate.
+  intros H1 H2. apply andb_true_iff in H1. destruct H1 as [E1 H1]. apply andb_true_iff in H2. destruct H2 as [E2 H2].
+  apply Z.eqb_eq in E1. apply Z.eqb_eq in E2. subst. rewrite Z.eqb_refl. simpl. eapply IH; eauto.
+Qed.
+
+Lemma add_outside sb p n t q : under sb p = true -> under sb q = false -> lookup ((p, n) :: t) q = lookup t q.
+Proof.
+  intros Hp Hq. apply lookup_cons_other. destruct (path_eqb p q) eqn:E; auto.
+  apply path_eqb_eq in E. congruence.
+Qed.
+
+Lemma apply_inv f0 sb f o f' : confined sb o -> apply f o = Some f' -> inv f0 sb f -> inv f0 sb f'.
+Proof.
+  intros Hc Ha [I1 I2]. destruct o as [p|p|s d|p ino h|p|p]; simpl in Hc, Ha.
+  - destruct (is_none (lookup (f_tree f) p)); inversion Ha; subst; clear Ha. split; simpl; auto.
+    intros q Hq. rewrite (add_outside sb); auto.
+  - destruct (lookup (f_tree f) p) as [[|x]|]; inversion Ha; subst; clear Ha; split; simpl; auto.
+    intros q Hq. rewrite (add_outside sb); auto.
+  - destruct (lookup (f_tree f) s) as [[|x]|]; try discriminate.
+    destruct (lookup (f_tree f) d); inversion Ha; subst; clear Ha. split; simpl; auto.
+    intros q Hq. rewrite (add_outside sb); auto.
+  - destruct (is_none (lookup (f_tree f) p) && is_none (content (f_data f) ino)) eqn:E; inversion Ha; subst; clear Ha.
+    apply andb_true_iff in E. destruct E as [_ E]. split; simpl.
+    + intros q Hq. rewrite (add_outside sb); auto.
+    + intros i0 h0 H0. specialize (I2 _ _ H0). unfold content in *. simpl.
+      destruct (ino =? i0) eqn:Ei; auto. apply Z.eqb_eq in Ei. subst.
+      destruct (find (fun e => fst e =? i0) (f_data f)); simpl in E; discriminate.
+  - destruct (lookup (f_tree f) p) as [[|x]|]; inversion Ha; subst; clear Ha. split; simpl; auto.
+    intros q Hq. rewrite <- I1 by auto.
+    apply (lookup_filter_keep (fun r => path_eqb r p)).
+    destruct (path_eqb q p) eqn:E; auto. apply path_eqb_eq in E. congruence.
+  - inversion Ha; subst; clear Ha. split; simpl; auto.
+    intros q Hq. rewrite <- I1 by auto.
+    apply (lookup_filter_keep (fun r => under p r)).
+    destruct (under p q) eqn:E; auto. rewrite (under_trans sb p q) in Hq; auto.
+Qed.
+
+Lemma run_inv f0 sb ops : Forall (confined sb) ops ->
+  forall f f', run f ops = Some f' -> inv f0 sb f -> inv f0 sb f'.
+Proof.
+  induction 1 as [|o ops Ho Hops IH]; intros f f' Hr Hi; simpl in Hr.
+  - inversion Hr; subst; auto.
+  - destruct (apply f o) as [f1|] eqn:Ea; [|discriminate].
+    eapply IH; eauto. eapply apply_inv; eauto.
+Qed.
+
+Lemma run_app f ops1 ops2 f' :
+  run f (ops1 ++ ops2) = Some f' -> exists f1, run f ops1 = Some f1 /\ run f1 ops2 = Some f'.
+Proof.
+  revert f. induction ops1 as [|o ops1 IH]; simpl; intros f H; [exists f; auto|].
+  destruct (apply f o); [apply IH; auto|discriminate].
+Qed.
+
+Lemma ro_open_ops_confined dir sb has_cd files created removed :
+  Forall (confined sb) (ro_open_ops dir sb has_cd files created removed).
+Proof.
+  unfold ro_open_ops. repeat (apply Forall_app; split).
+  - constructor; [|constructor]. simpl. rewrite <- (app_nil_r sb) at 2. apply under_app.
+  - destruct has_cd; [|constructor]. constructor; [simpl; apply under_app|].
+    apply Forall_forall. intros o Ho. apply in_map_iff in Ho. destruct Ho as (n & <- & _). simpl. apply under_app.
+  - constructor; [simpl; apply under_app|constructor].
+  - apply Forall_forall. intros o Ho. apply in_map_iff in Ho. destruct Ho as (n & <- & _). simpl. apply under_app.
+  - apply Forall_forall. intros o Ho. apply in_map_iff in Ho. destruct Ho as (n & <- & _). simpl. apply under_app.
+Qed.
+
+Lemma ro_trace_confined dir sb has_cd files created removed :
+  Forall (confined sb) (ro_trace dir sb has_cd files created removed).
+Proof.
+  unfold ro_trace. apply Forall_app. split; [apply ro_open_ops_confined|].
+  constructor; [|constructor]. simpl. rewrite <- (app_nil_r sb) at 2. apply under_app.
+Qed.
+
+Lemma Forall_firstn {A} (P : A -> Prop) k l : Forall P l -> Forall P (firstn k l).
+Proof. revert l. induction k; intros l H; simpl; [constructor|]. destruct H; constructor; auto. Qed.
+
+(* the sandbox name is fresh: nothing in the tree lies below it *)
+Definition fresh (sb : path) (f : fs) : Prop := forall e, In e (f_tree f) -> under sb (fst e) = false.
+
+Lemma fresh_lookup sb f p n : fresh sb f -> lookup (f_tree f) p = Some n -> under sb p = false.
+Proof.
+  intros Hf. unfold lookup. destruct (find (fun e => path_eqb (fst e) p) (f_tree f)) eqn:E; [|discriminate].
+  intros _. apply find_some in E. destruct E as [Hin He]. apply path_eqb_eq in He. subst. auto.
+Qed.
+
+Lemma fresh_none sb f p : fresh sb f -> under sb p = true -> lookup (f_tree f) p = None.
+Proof.
+  intros Hf Hp. destruct (lookup (f_tree f) p) eqn:E; auto.
+  rewrite (fresh_lookup sb f p n Hf E) in Hp. discriminate.
+Qed.
+
+(* a read-only session mutates no pre-existing path, at any point of its trace (a crash in the
+   middle included), and after Close the tree is the tree it started from *)
+Theorem fs_unchanged (f0 : fs) (dir sb : path) (has_cd : bool) (files : list Z)
+                     (created : list (Z * Z * Z)) (removed : list Z) :
+  fresh sb f0 ->
+  let tr := ro_trace dir sb has_cd files created removed in
+  (forall k f, run f0 (firstn k tr) = Some f ->
+     (forall p n, lookup (f_tree f0) p = Some n -> lookup (f_tree f) p = Some n)
+     /\ (forall ino h, content (f_data f0) ino = Some h -> content (f_data f) ino = Some h))
+  /\ (forall f, run f0 tr = Some f ->
+        (forall p, lookup (f_tree f) p = lookup (f_tree f0) p)
+        /\ (forall ino h, content (f_data f0) ino = Some h -> content (f_data f) ino = Some h)).
+Proof.
+  intros Hf tr. assert (I0 : inv f0 sb f0) by (split; auto). split.
+  - intros k f Hr.
+    destruct (run_inv f0 sb (firstn k tr) (Forall_firstn _ k tr (ro_trace_confined _ _ _ _ _ _)) f0 f Hr I0) as [I1 I2].
+    split; auto. intros p n Hp. rewrite I1; auto. eapply fresh_lookup; eauto.
+  - intros f Hr. unfold tr, ro_trace in Hr.
+    destruct (run_app _ _ _ _ Hr) as (f1 & H1 & H2).
+    destruct (run_inv f0 sb _ (ro_open_ops_confined dir sb has_cd files created removed) f0 f1 H1 I0) as [I1 I2].
+    simpl in H2. inversion H2; subst; clear H2. simpl. split; auto.
+    intros p. destruct (under sb p) eqn:E.
+    + rewrite (lookup_filter_drop (fun r => under sb r)); auto. symmetry. eapply fresh_none; eauto.
+    + rewrite (lookup_filter_keep (fun r => under sb r)); auto.
+Qed.
